@@ -209,8 +209,11 @@ func runC19(r *simrt.Run, tier Tier) Outcome {
 				f.Args = append(f.Args, pool[r.Choose(len(pool), "c19.arg")])
 			}
 			hk := predID(f) + "#" + ArgHashKey(ToAtom(f))
-			if seen[f.Key()] || hseen[hk] {
+			if seen[f.Key()] {
 				continue
+			}
+			if hseen[hk] {
+				r.Probe("fact-set-has-atoms-with-equal-hash")
 			}
 			seen[f.Key()] = true
 			hseen[hk] = true
